@@ -14,6 +14,43 @@ func init() {
 	vrt.Register("h_log.QueryConsume", QueryConsume)
 	vrt.Register("h_log.QueryGet", QueryGet)
 	vrt.Register("h_log.Cursor", Cursor)
+	vrt.Register("h_log.QueryStat", QueryStat)
+}
+
+// QueryStat: Stat reports exactly the number of live messages and the total
+// size of all segment files; NextOffset is one more than the largest offset (C13, C02).
+func QueryStat() {
+	sh := kit.ChooseShape()
+	times, keys := vrt.Choose("times", 2) == 1, vrt.Choose("keys", 2) == 1
+	l := kit.Gen(sh, times, keys)
+	l.Build("d")
+	ro := vrt.Choose("readonly", 2) == 1
+	opts := l.Options()
+	opts.Readonly = ro
+	lg := openLog(l, opts)
+	reachLayout(l)
+	st, err := lg.Stat()
+	vrt.Assert(err == nil, "Stat: no error")
+	total := int64(0)
+	for i := range l.Segs {
+		ib, _ := l.Segs[i].IndexBytes(times, keys, 0)
+		total += int64(len(l.Segs[i].LogBytes()) + len(ib))
+	}
+	if head := l.Segs[len(l.Segs)-1]; head.V1 && len(head.Recs) == 0 && !ro {
+		// an empty V1 head is a zero-length file: opening it read-write writes the
+		// file headers of the configured (V2) version into the log and the index
+		total += 16
+		vrt.Reach("empty-v1-head-gets-v2-headers")
+	}
+	vrt.Assert(st.Messages == len(l.Live()), "Stat.Messages = number of live messages")
+	vrt.Assert(st.Size == total, "Stat.Size = total size of all segment files")
+	vrt.Assert(st.Segments == len(l.Segs), "Stat.Segments = number of segments")
+	next, err := lg.NextOffset()
+	vrt.Assert(err == nil && next == l.Next, "NextOffset = one more than the largest assigned offset")
+	m := klevdb.Message{Key: vrt.Bytes("k", 2), Value: vrt.Bytes("v", 3)}
+	vrt.Assert(lg.Size(m) == int64(kit.RecordSize(false, 2, 3)+kit.ItemSize(times, keys)), "Size(m) = V2 record size + index item size")
+	vrt.Assert(lg.Close() == nil, "Close succeeds")
+	vrt.Reach("stat")
 }
 
 func openLog(l *kit.Log, opts klevdb.Options) klevdb.Log {
